@@ -20,6 +20,10 @@ def irt(t, nw, tl, tiers):
 OBLIGATIONS += [irt(1, 0, 0, ["quick", "thorough"]), irt(2, 1, 0, ["quick", "thorough"]), irt(3, 0, 2, ["quick", "thorough"]), irt(9, 1, 0, ["thorough"]),
                 irt(4, 0, 0, ["thorough"]), irt(6, 0, 0, ["thorough"]), irt(10, 0, 2, ["thorough"]), irt(11, 0, 0, ["quick", "thorough"]), irt(13, 0, 0, ["quick", "thorough"])]
 
+OBLIGATIONS.append(dict(name="dir_inode_thresholds", harness="harness/C03_dirinode.c", sources=["lib/util/src/alloc.c", "lib/util/src/array.c"],
+    included_sources=["lib/sqfs/src/dir_writer.c"], pre_include=["stubs/vp_alloc_sizes.h"], defines=dict(VP_ALLOC_SIZES="64"), unwind=4, tiers=["quick", "thorough"], timeout=200,
+    reach=["basic", "extended"], functions=["sqfs_dir_writer_create_inode (lib/sqfs/src/dir_writer.c)"],
+    bound="any listing size < 2^32-16, any entry count, hard link count, xattr index, parent, position (no directory index entries)"))
 OBLIGATIONS.append(dict(name="packfile_keywords", harness="harness/C01_packfile.c",
     sources=["lib/util/src/parse_int.c", "lib/util/src/canonicalize_name.c", "lib/util/src/split_line.c", "lib/util/src/alloc.c"], stubs=["stubs/vp_ctype.c", "stubs/vp_sysmacros.c"],
     included_sources=["bin/gensquashfs/src/fstree_from_file.c"], incdirs=["bin/gensquashfs/src"], unwind=12, tiers=["quick", "thorough"], timeout=300, reach=["done"],
